@@ -480,6 +480,9 @@ func (n *BinaryNode) MarshalJSON() ([]byte, error) {
 		SetOperator("operator", n.Operator).
 		Set("left", n.Left).
 		Set("right", n.Right)
+	if n.Parens {
+		props = props.Set("parens", n.Parens)
+	}
 
 	return json.Marshal(&props)
 }
@@ -500,6 +503,12 @@ func (n *BinaryNode) unmarshal(props JSONNode) error {
 
 	if n.Right, err = props.Node("right"); err != nil {
 		return err
+	}
+
+	if props.Has("parens") {
+		if n.Parens, err = props.Bool("parens"); err != nil {
+			return err
+		}
 	}
 	return nil
 }
